@@ -7,6 +7,7 @@ package main
 
 import (
 	"bytes"
+	"encoding/json"
 	"flag"
 	"fmt"
 	"os"
@@ -54,6 +55,10 @@ func main() {
 	}
 	if *worker != "" {
 		workerMain(*worker)
+		return
+	}
+	if d := os.Getenv("VCHECK_C11_CHILD"); d != "" {
+		c11ChildMain(d)
 		return
 	}
 	def, ok := registry[*prop]
@@ -186,7 +191,32 @@ func replayMain(prop, path string) int {
 		fmt.Fprintln(os.Stderr, err)
 		return 2
 	}
-	fmt.Printf("replay of %s (%s):\n%s\n", prop, filepath.Base(path), string(b))
-	fmt.Println("re-run with the recorded seed/tier to reproduce: VERIF_SEED=<seed> ./check.sh", prop, "<tier>")
+	var rec struct {
+		ClassKey string `json:"class_key"`
+		What     string `json:"what"`
+		Seed     int64  `json:"seed"`
+		Tier     string `json:"tier"`
+	}
+	if err := json.Unmarshal(b, &rec); err != nil {
+		fmt.Fprintln(os.Stderr, "replay file:", err)
+		return 2
+	}
+	fmt.Printf("replaying %s class %s (seed %d, tier %s)\nrecorded: %s\n", prop, rec.ClassKey, rec.Seed, rec.Tier, rec.What)
+	self, _ := os.Executable()
+	cmd := exec.Command(self, "-prop", prop, "-tier", rec.Tier)
+	cmd.Env = append(os.Environ(), fmt.Sprintf("VERIF_SEED=%d", rec.Seed), "VERIF_DIR="+os.TempDir()+"/vcheck-replay")
+	os.MkdirAll(os.TempDir()+"/vcheck-replay/evidence", 0o755)
+	os.MkdirAll(os.TempDir()+"/vcheck-replay/replays", 0o755)
+	defer os.RemoveAll(os.TempDir() + "/vcheck-replay")
+	// the replay run needs the test keys and known findings of the real tree
+	os.Symlink(filepath.Join(mon.Dir, "testkeys"), os.TempDir()+"/vcheck-replay/testkeys")
+	out, _ := cmd.CombinedOutput()
+	for _, l := range strings.Split(string(out), "\n") {
+		if strings.Contains(l, "class="+rec.ClassKey+" ") {
+			fmt.Println("REPRODUCED:", l)
+			return 1
+		}
+	}
+	fmt.Println("not reproduced on the current tree; output tail:", lastLines(string(out), 3))
 	return 0
 }
